@@ -161,6 +161,15 @@ class SlotCallC:
     return _r.rec('SlotCallC', d)
 
 
+def _forwarding(fn):
+  """A hand-written decorator: forwards everything, does not use functools.wraps."""
+
+  def wrapper(*args, **kwargs):
+    return fn(*args, **kwargs)
+
+  return wrapper
+
+
 class Meth:
   """Instance methods: `Meth.apply` (plain function, self is the first positional parameter)
   and `meth_instance.apply` (bound method, self stripped) share one __func__ but have
@@ -176,6 +185,10 @@ class Meth:
 
   def apply(self, x=1, y=10, *va, k='K'):
     return _r.rec('Meth.apply', locals())
+
+  @_forwarding
+  def wrapped(self, a=None, b=None):
+    return _r.rec('Meth.wrapped', {'self': self, 'a': a, 'b': b})
 
   def two_required(self, a, b, c=3):
     return _r.rec('Meth.two_required', locals())
